@@ -115,7 +115,7 @@ def gen_value(rng, depth=0, rich=False, maxdepth=3, floats=False):
         if rich and r < 0.88:
             return ("enum", rng.choice(["red", "green", "blue"]))
         if rich and r < 0.91:
-            return ("flag", sorted(rng.sample(["r", "w", "x"], rng.randint(1, 3))))
+            return ("flag", sorted(rng.sample(["r", "w", "x"], rng.randint(0, 3))))        # also Perm(0): no flag set
         if rich and r < 0.93:
             return ("class", rng.choice(["DC", "Color", "int", "str"]))
         if rich and r < 0.96:
@@ -192,7 +192,7 @@ def render(e):
     if t == "enum":
         return f"Color.{e[1]}"
     if t == "flag":
-        return " | ".join(f"Perm.{n}" for n in e[1])
+        return " | ".join(f"Perm.{n}" for n in e[1]) if e[1] else "Perm(0)"
     if t == "class":
         return e[1]
     if t == "weird":
